@@ -3,6 +3,7 @@ import RzilVerif.Model.ILSem
 import RzilVerif.Lemmas.LayoutPerm
 import RzilVerif.Lemmas.LayoutDup
 import RzilVerif.Lemmas.LayoutPermGen
+import RzilVerif.Lemmas.LayoutDead
 /-!
 # C16 — both output layouts denote the same effect
 
@@ -434,5 +435,116 @@ example : permEqualD exPermRS
     (exPermEC.map (fun i => match i with
       | .decl ty "op_AND_3" _ => .decl ty "op_AND_3" (.app "LOGAND" [.id "Rt", .app "SN" [.num 32, .num 2]])
       | i => i)) = false := by decide +kernel
+
+/-! ### Dead declarations
+
+EXEC_CLASSES sometimes prints an inlined declaration (a load `ml_EA_k`) that nothing mentions and that READ_STATEMENTS
+does not print at all.  Such a declaration only adds a binding nobody looks up. -/
+
+/-- Removing ONE inlined declaration `decl ty n rhs`, at any position, whose name no item behind it mentions
+    (`Item.mentionsIL`: inlined right-hand sides and returned terms) and the returned term of the body does not mention,
+    does not change the denotation.  Nothing is required of the items in front of it, of `rhs`, or of the names (the
+    name may even be declared a second time). -/
+theorem dead_decl_irrelevant (hd : Option (String × List Param)) (pre post : List Item) (ty n : String) (rhs : Term)
+    (hpost : ∀ i ∈ post, i.mentionsIL n = false)
+    (hret : ∀ t, returned (pre ++ Item.decl ty n rhs :: post) = some t → t.mentions n = false) :
+    denoteIL { header := hd, items := pre ++ post } = denoteIL { header := hd, items := pre ++ Item.decl ty n rhs :: post } := by
+  rw [returned_append_decl] at hret
+  simp only [denoteIL, returned_append_decl]
+  cases hr : returned (pre ++ post) with
+  | none => rfl
+  | some r =>
+    simp only [Option.bind_eq_bind, Option.bind_some]
+    rw [Term.subst_congr_except (buildEnvIL_dead pre post ty n rhs hpost []) r (hret r hr)]
+
+/-- Removing ALL dead declarations (`dropDeadDecls`, one pass from right to left) does not change the denotation.  No side
+    condition: in particular `namesDistinct` is not needed. -/
+theorem dropDeadDecls_denote (b : Body) : denoteIL { b with items := dropDeadDecls b.items } = denoteIL b := by
+  simp only [denoteIL, dropDeadDecls, returned_dropDeadDeclsAux]
+  cases hr : returned b.items with
+  | none => rfl
+  | some r =>
+    simp only [Option.bind_eq_bind, Option.bind_some]
+    rw [dropDeadDeclsAux_subst r b.items []]
+
+/-- The form with the (superfluous) hypothesis of the brief. -/
+theorem dropDeadDecls_denote' (b : Body) (_h : namesDistinct b.items = true) :
+    denoteIL { b with items := dropDeadDecls b.items } = denoteIL b := dropDeadDecls_denote b
+
+/-- What the field `(perm-equal-dead 1)` of the driver answer buys: after removing the dead declarations of either text
+    and erasing `DUP`, the EXEC_CLASSES text declares the same inlined declarations as the READ_STATEMENTS text in any
+    order without forward references — then both texts (as written, dead declarations included) denote the same term. -/
+theorem layout_rel_sound_dead (rs ec : Body) (h : permEqualDD rs.items ec.items = true) :
+    denoteIL ec = denoteIL rs := by
+  have h' := layout_rel_sound_perm { rs with items := dropDeadDecls rs.items } { ec with items := dropDeadDecls ec.items } h
+  rw [dropDeadDecls_denote, dropDeadDecls_denote] at h'
+  exact h'
+
+/-- The new test only accepts more when nothing is dead: a list without dead declarations is left alone. -/
+example : dropDeadDecls exPermRS = exPermRS := by rfl
+
+/-- READ_STATEMENTS: one load, used by the assignment. -/
+def exDeadRS : List Item :=
+  [.comment " READ",
+   .decl "const HexOp *" "Rd_op" (.app "ISA2REG" [.id "hi", .chr "d", .id "false"]),
+   .decl "RzILOpPure *" "ml_EA_5" (.app "LOADW" [.num 32, .app "VARL" [.str "EA"]]),
+   .decl "RzILOpEffect *" "op_ASSIGN_6" (.app "WRITE_REG" [.id "bundle", .id "Rd_op", .id "ml_EA_5"]),
+   .ret (.id "op_ASSIGN_6")]
+
+/-- EXEC_CLASSES: additionally `RzILOpPure *ml_EA_7 = LOADW(32, VARL("EA"));`, which nothing mentions. -/
+def exDeadEC : List Item :=
+  [.comment " EXEC",
+   .decl "RzILOpPure *" "ml_EA_5" (.app "LOADW" [.num 32, .app "VARL" [.str "EA"]]),
+   .decl "RzILOpPure *" "ml_EA_7" (.app "LOADW" [.num 32, .app "VARL" [.str "EA"]]),
+   .comment " WRITE",
+   .decl "const HexOp *" "Rd_op" (.app "ISA2REG" [.id "hi", .chr "d", .id "false"]),
+   .decl "RzILOpEffect *" "op_ASSIGN_6" (.app "WRITE_REG" [.id "bundle", .id "Rd_op", .id "ml_EA_5"]),
+   .ret (.id "op_ASSIGN_6")]
+
+example : permEqualD exDeadRS exDeadEC = false := by decide +kernel
+example : permEqualDD exDeadRS exDeadEC = true := by decide +kernel
+
+/-- exactly the dead load is removed … -/
+example : dropDeadDecls exDeadEC =
+  [.comment " EXEC",
+   .decl "RzILOpPure *" "ml_EA_5" (.app "LOADW" [.num 32, .app "VARL" [.str "EA"]]),
+   .comment " WRITE",
+   .decl "const HexOp *" "Rd_op" (.app "ISA2REG" [.id "hi", .chr "d", .id "false"]),
+   .decl "RzILOpEffect *" "op_ASSIGN_6" (.app "WRITE_REG" [.id "bundle", .id "Rd_op", .id "ml_EA_5"]),
+   .ret (.id "op_ASSIGN_6")] := by rfl
+
+/-- … and a declaration that IS mentioned (`ml_EA_5` by `op_ASSIGN_6`, `op_ASSIGN_6` by the return) is not dropped. -/
+example : dropDeadDecls exDeadRS = exDeadRS := by rfl
+
+example : denoteIL { header := none, items := exDeadEC } = denoteIL { header := none, items := exDeadRS } :=
+  layout_rel_sound_dead { header := none, items := exDeadRS } { header := none, items := exDeadEC } (by decide +kernel)
+
+/-- the single-declaration theorem on the same text: `pre` = the first two items, `post` = the last four -/
+example : denoteIL { header := none, items := exDeadEC.take 2 ++ exDeadEC.drop 3 } =
+    denoteIL { header := none, items := exDeadEC } :=
+  dead_decl_irrelevant none (exDeadEC.take 2) (exDeadEC.drop 3) "RzILOpPure *" "ml_EA_7"
+    (.app "LOADW" [.num 32, .app "VARL" [.str "EA"]])
+    (by decide +kernel) (by intro t ht; cases ht; decide +kernel)
+
+/-- … and the common denotation is a genuine term. -/
+example : denoteIL { header := none, items := exDeadRS } =
+    some (.app "WRITE_REG" [.id "bundle", .id "Rd_op", .app "LOADW" [.num 32, .app "VARL" [.str "EA"]]]) := by rfl
+
+/-- A declaration only mentioned by a dead declaration is dead as well (the tail is cleaned first); the hypothesis of
+    `dead_decl_irrelevant` is needed: removing the MENTIONED `ml_EA_5` changes the denotation. -/
+def exDeadChain : List Item :=
+  [.decl "RzILOpPure *" "a" (.id "Rs"),
+   .decl "RzILOpPure *" "b" (.app "ADD" [.id "a", .id "a"]),
+   .decl "RzILOpEffect *" "e" (.app "NOP" []),
+   .ret (.id "e")]
+
+example : dropDeadDecls exDeadChain = [.decl "RzILOpEffect *" "e" (.app "NOP" []), .ret (.id "e")] := by rfl
+
+example : denoteIL { header := none, items := exDeadRS.take 2 ++ exDeadRS.drop 3 } ≠
+    denoteIL { header := none, items := exDeadRS } := by
+  intro h
+  have h' : some (Term.app "WRITE_REG" [.id "bundle", .id "Rd_op", .id "ml_EA_5"]) =
+      some (Term.app "WRITE_REG" [.id "bundle", .id "Rd_op", .app "LOADW" [.num 32, .app "VARL" [.str "EA"]]]) := h
+  simp at h'
 
 end Rzil
